@@ -484,6 +484,13 @@ def mi1(ctx):
                                 ed = b.bool_edges(bi)
                                 if ed and b.edge_dominates(ed[0], e['point']):
                                     ok = True
+            if not ok:
+                # `let unread = &self.buffer[self.byte_offset..]; if unread.is_empty() { return None }`
+                from vocab import emptiness_tests
+                for (ee, ne, ecs) in emptiness_tests(b):
+                    backc = fl.backward(set(fl.op_nodes(ecs.args[0]))) if ecs.args else set()
+                    if ('m', 'MultiRecord.byte_offset') in backc and ('m', 'MultiRecord.buffer') in backc and b.edge_dominates(ee, e['point']):
+                        ok = True
             ctx.check(ok, 'none:at-end', where(b, e['point']), 'None only when byte_offset == buffer.len()',
                       'MultiRecord::next can report the end of the batch before the buffer is exhausted (records silently dropped)')
 
